@@ -724,7 +724,7 @@ Definition mirror_full_replicate : Prop := forall c ev,
 
 Definition w_cfg : config :=
   {| src := "/data"; tgt := "/backup"; incremental := false; sink_is_filer := false; target_sig := 0 |}.
-Definition w_entry (n : string) : entry := {| e_name := n; e_isdir := false; e_date := "2021-03-04" |}.
+Definition w_entry (n : string) : entry := {| e_name := n; e_isdir := false; e_date := "2021-03-04"; e_data := [] |}.
 (* /other/x moved to /data/x *)
 Definition w_rename_in : event :=
   {| ev_dir := "/other"; ev_old := Some (w_entry "x"); ev_new := Some (w_entry "x");
